@@ -211,11 +211,16 @@ def coq_eval(header, exprs, tag, timeout=300):
 # ---------------------------------------------------------------- known findings
 
 def known_findings(prop):
-    f = ROOT / "known_findings.json"
-    if not f.exists():
-        return []
-    d = json.loads(f.read_text())
-    return [e for e in d.get("findings", []) if e["property"] == prop]
+    """entries of the committed known-findings file (and of per-property fragments not yet consolidated into it)"""
+    out, seen = [], set()
+    files = [ROOT / "known_findings.json"] + sorted((ROOT / "known_findings.d").glob("*.json"))
+    for f in files:
+        if not f.exists():
+            continue
+        for e in json.loads(f.read_text()).get("findings", []):
+            if e["property"] == prop and e["key"] not in seen:
+                seen.add(e["key"]); out.append(e)
+    return out
 
 
 def write_replay(prop, seed, tag, payload):
